@@ -1,6 +1,7 @@
 // scan_tool — the hand-written scanners of the front-end, called directly (C15 correspondence).
 // stdin: one case per line, bytes in hex.  stdout: one line per case in the format of ocaml/c15/driver.ml.
 //   m <hex args>        CPPManifest(parser, args, loc)         -> name=<hex> has=<0|1> n=<k> var=<-1|k>
+//   e <hex args>        the same constructor                    -> the expansion node list (parm flags text [nested]) ...
 //   x <p> <hex expr>    extract_args(args, expr, p); expr.substr(p) (what expand_manifests does next)
 //                                                               -> p=<p'> args=<hex>,<hex>,... tail=<hex>
 //   r <hex input>       scan_raw('"') on the input stream       -> str=<hex> rest=<hex> closed=<0|1>
@@ -41,6 +42,20 @@ static string hex(const string &s) {
   return out;
 }
 
+static void dump(const CPPManifest::Expansion &e, ostream &out) {
+  for (const CPPManifest::ExpansionNode &n : e) {
+    out << "(";
+    if (n._parm_number >= 0) {
+      out << n._parm_number;
+    } else {
+      out << "-";
+    }
+    out << " " << (n._expand ? 1 : 0) << (n._stringify ? 1 : 0) << (n._paste ? 1 : 0) << (n._optional ? 1 : 0) << " " << hex(n._str) << " [";
+    dump(n._nested, out);
+    out << "])";
+  }
+}
+
 int main(int argc, char **argv) {
   // diagnostics of the code under test go to a string, not to the terminal
   ostringstream sink;
@@ -63,6 +78,14 @@ int main(int argc, char **argv) {
         CPPManifest m(parser, unhex(rest), loc);
         cout << "name=" << hex(m._name) << " has=" << (m._has_parameters ? 1 : 0) << " n=" << m._num_parameters
              << " var=" << m._variadic_param << "\n";
+
+      } else if (mode == 'e') {
+        CPPParser parser;
+        cppyyltype loc;
+        loc.first_line = loc.first_column = loc.last_line = loc.last_column = 0;
+        CPPManifest m(parser, unhex(rest), loc);
+        dump(m._expansion, cout);
+        cout << "\n";
 
       } else if (mode == 'x') {
         size_t sp = rest.find(' ');
